@@ -196,3 +196,73 @@ Section BrokerHandlers.
         end
     end.
 End BrokerHandlers.
+
+(* ---------- one rendezvous object over its life time ----------
+   BrokerChannel.Negotiate calls Exchange on ONE httpRendezvous / ampCacheRendezvous once per snowflake.  The object's
+   fields (brokerURL, cacheURL, front, transport) are written by the constructor only: Exchange reads them, builds a NEW
+   url.URL with ResolveReference, and does the front swap on the request's own URL.  The machine below has that state;
+   [rdv_request]/[rdv_result] say what one Exchange does as a function of (configuration, event). *)
+
+Inductive rdv_method :=
+| MHttp                                   (* newHTTPRendezvous *)
+| MAmp (cache : option cache_url_t).      (* newAMPCacheRendezvous, with or without an AMP cache *)
+
+Record rdv_config := mk_rdv_config {
+  rc_broker : broker_url;
+  rc_method : rdv_method;
+  rc_front : bytes }.
+
+(* what the http.RoundTripper does with the request of one Exchange *)
+Inductive transport_reply :=
+| TxError                                                  (* RoundTrip returned an error *)
+| TxResponse (status : N) (has_location : bool) (body : bytes).
+
+(* one Exchange: the encoded poll, the 9 bytes crypto/rand hands to amp.EncodePath (AMP only), the transport's reply *)
+Record rdv_event := mk_rdv_event { ev_poll : bytes; ev_cb : bytes; ev_reply : transport_reply }.
+
+Section RendezvousObject.
+  Variable to_unicode : bytes -> option bytes.
+  Variable to_ascii : bytes -> option bytes.
+  Variable sha256 : bytes -> bytes.
+  Variable h34 : bytes -> bool.
+  Variable armor_decode : bytes -> option bytes.
+
+  (* None = Exchange returns an error before any request is made (AMP cache URL cannot be built) *)
+  Definition rdv_request (c : rdv_config) (poll cb : bytes) : option request :=
+    match rc_method c with
+    | MHttp => Some (http_request (rc_broker c) (rc_front c) poll)
+    | MAmp cache => amp_request to_unicode to_ascii sha256 h34 (rc_broker c) cache (rc_front c) cb poll
+    end.
+
+  (* what Exchange returns; None = error *)
+  Definition rdv_result (c : rdv_config) (ev : rdv_event) : option bytes :=
+    match rdv_request c (ev_poll ev) (ev_cb ev) with
+    | None => None
+    | Some _ =>
+        match ev_reply ev with
+        | TxError => None
+        | TxResponse status loc body =>
+            match rc_method c with
+            | MHttp => http_response READ_LIMIT status body
+            | MAmp _ => amp_response armor_decode READ_LIMIT status loc body
+            end
+        end
+    end.
+
+  Record rdv_state := mk_rdv_state {
+    rs_conf : rdv_config;     (* the struct fields *)
+    rs_exchanges : N          (* ghost: Exchanges made so far *)
+  }.
+  Definition rdv_init (c : rdv_config) : rdv_state := mk_rdv_state c 0.
+
+  Definition rdv_step (s : rdv_state) (ev : rdv_event) : rdv_state * (option request * option bytes) :=
+    (mk_rdv_state (rs_conf s) (rs_exchanges s + 1),
+     (rdv_request (rs_conf s) (ev_poll ev) (ev_cb ev), rdv_result (rs_conf s) ev)).
+
+  Fixpoint rdv_run (s : rdv_state) (evs : list rdv_event) : rdv_state * list (option request * option bytes) :=
+    match evs with
+    | [] => (s, [])
+    | ev :: r => let '(s1, o) := rdv_step s ev in
+                 let '(s2, os) := rdv_run s1 r in (s2, o :: os)
+    end.
+End RendezvousObject.
